@@ -536,6 +536,20 @@ def _helper_cases(src: str, mode="exec"):
                 pass
             return res
 
+        def proc_macro_arg(self, a, **locs):
+            res = super().proc_macro_arg(a, **locs)
+            try:
+                strs = [(t.string if isinstance(t, TokenInfo) else t) for t in a]
+                if all(isinstance(x, str) for x in strs):
+                    na = sorted({c for x in strs for c in x if ord(c) > 127 and c.isspace()})
+                    sc = ",".join(str(ord(c)) for c in na) or "-"
+                    req = "procmacro " + sc + " " + " ".join(enc_str(x) if x else "-" for x in strs)
+                    if not any(x == "" for x in strs):
+                        cases.append((req.rstrip(), enc_str(res.value), src))
+            except Exception:  # noqa: BLE001
+                pass
+            return res
+
         def make_arguments(self, pos_only, pos_only_with_default, param_no_default, param_default, after_star):
             res = super().make_arguments(pos_only, pos_only_with_default, param_no_default, param_default, after_star)
             ids = {}
@@ -606,7 +620,7 @@ def helper_cases(srcs):
     return out
 
 
-def run_helper_correspondence(rep, cases, kinds=("macro", "withmacro", "makeargs", "builderr", "span", "concat")):
+def run_helper_correspondence(rep, cases, kinds=("macro", "withmacro", "makeargs", "builderr", "span", "concat", "procmacro")):
     by = {}
     for c in cases:
         k = c[0].split(" ", 1)[0]
@@ -614,7 +628,7 @@ def run_helper_correspondence(rep, cases, kinds=("macro", "withmacro", "makeargs
             by.setdefault(k, []).append(c)
     bad_all = []
     for k, cs in sorted(by.items()):
-        bad_all += run_correspondence(rep, {"macro": "consume_macro_params", "withmacro": "consume_with_macro_params", "makeargs": "make_arguments", "builderr": "_build_syntax_error", "span": "span", "concat": "concatenate_strings"}[k], cs)
+        bad_all += run_correspondence(rep, {"macro": "consume_macro_params", "withmacro": "consume_with_macro_params", "makeargs": "make_arguments", "builderr": "_build_syntax_error", "span": "span", "concat": "concatenate_strings", "procmacro": "proc_macro_arg"}[k], cs)
     return bad_all
 
 
